@@ -162,6 +162,18 @@ def tables(sk, fam):
 
 
 def state_bytes(sk, fam):
+    """State as far as the API can tell it apart. For heavy hitters the key bytes and key
+    length stored in a cell whose count is 0 are not part of it: no query, `hh[key]`, add or
+    merge depends on them (a count of 0 never matches, never wins and is overwritten by any
+    positive vote), so a refactoring may leave something else there."""
+    if fam == "hh":
+        dead = np.asarray(sk.lhh_count) == 0
+        if dead.any():
+            lhh = np.array(sk.lhh, copy=True)
+            lhh[dead] = 0
+            kl = np.array(sk.key_lens, copy=True)
+            kl[dead] = 0
+            return b"".join(a.tobytes() for a in (lhh, sk.lhh_count, kl, sk.n_added_records))
     return b"".join(a.tobytes() for a in tables(sk, fam))
 
 
